@@ -374,7 +374,13 @@ class EDXMLParserBase(object):
                         raise EDXMLValidationError(
                             'Root element contains invalid version attribute: "%s"' % version_string
                         )
-                    if int(version[0]) != 3 or int(version[1]) > 0:
+                    try:
+                        unsupported = int(version[0]) != 3 or int(version[1]) > 0
+                    except ValueError:
+                        raise EDXMLValidationError(
+                            'Root element contains invalid version attribute: "%s"' % version_string
+                        )
+                    if unsupported:
                         raise EDXMLValidationError('Unsupported EDXML version: "%s"' % version_string)
 
             elif elem.tag == '{http://edxml.org/edxml}event':
@@ -510,8 +516,11 @@ class EDXMLParserBase(object):
         return handlers
 
     def __parse_event(self, event):
-        event_type_name = event.get_type_name()
-        event_source_uri = event.get_source_uri()
+        try:
+            event_type_name = event.get_type_name()
+            event_source_uri = event.get_source_uri()
+        except KeyError as e:
+            raise EDXMLEventValidationError("An input event is missing the %s attribute." % e)
 
         # TODO: To make things more efficient, we should keep lists of event types
         #       sources and validation schemas that we update whenever we receive
@@ -697,9 +706,8 @@ class EDXMLPushParser(EDXMLParserBase):
 
             self._element_iterator = self.__input_parser.read_events()
 
-        self.__input_parser.feed(data)
-
         try:
+            self.__input_parser.feed(data)
             self._parse_edxml()
         except XMLSyntaxError as e:
             raise EDXMLValidationError('Invalid XML: ' + str(e))
